@@ -3,14 +3,133 @@
 Shares model (SSVerif/Model/Hist.lean), harness (harness/h_c01.c), driver sub-command (`ssdriver c01`)
 and generators with C01 (tools/props/c01.py); this module judges the C03 side of every dump:
 the model's segments = the iterator output field by field, the verified checkers segsTileB /
-scoresSumB / hypothesis = segment words on the reported segmentation, and the frame accounting of the
-processing calls.  Theorems: SSVerif/Props/C03.lean.
+scoresSumB / hypothesis = segment words on the reported segmentation, where the segmentation ends
+(Props/C03End.lean), and the frame accounting of the processing calls (sum of the real return values).
+Theorems: SSVerif/Props/C03.lean, C03Frames.lean, C03Ret.lean (return values, Model/DecRet.lean),
+C03End.lean.  The return-value model of Model/DecRet.lean is tied to the implementation call by call in
+the C07 check (tools/props/c07.py reads `rv=` of harness/h_c07.c and compares it with the driver's).
 """
 from props import c01
 
 
+def fix_trusted(c):
+    """the trusted base as it stands for C03 (c01.run_check writes the text shared with C01)"""
+    c.trusted = [t for t in c.trusted if not t.startswith("production of the history table")]
+    c.trusted += [
+        "production of the history table: WFHist is a precondition of the C03 theorems, evaluated (wfHistB) on every "
+        "dumped table; that fsg_search_start/step keep it is C01's theorem over the step relation of Model/Search.lean "
+        "(Props/C01Search.lean), tied to the implementation by C01's check, not by this one",
+        "frame accounting: the return values and d->n_frame are modelled (Model/DecRet.lean over Model/AcmodBuf.lean) and "
+        "proved to add up (Props/C03Ret.lean) for utterances within the bound s0.cmnFrames + frames <= CMN_WIN_HWM "
+        "(streaming) / any length (batch CMN); the model is compared with the implementation call by call in the C07 "
+        "check (harness/h_c07.c, tools/props/c07.py, lean/Driver/C07.lean); THIS check evaluates the sums on the real "
+        "return values of its own schedules (any length), and fsgs->frame = number of search steps "
+        "(assert(fsgs->frame == frame_idx) in fsg_search_step, asserts on)",
+        "the last segment is NOT tied to the last frame searched, by the theorems or by the code: it ends in the frame of "
+        "the last history-table entry (Props/C03End.lean; evaluated on every dump; measured distribution in the coverage)",
+    ]
+
+
+def long_history_tie(c):
+    """Frame accounting BEYOND the bound of the `_partial` theorems (s0.cmnFrames + frames <= CMN_WIN_HWM): one decoder,
+    five streaming utterances over the whole recording without resetting the CMN state, so that cmn->nframe passes
+    CMN_WIN_HWM and the live-CMN window shifts in the middle of an utterance.  The C07 check keeps away from that
+    regime (beyond it the features legitimately depend on the history); here only what the frame accounting speaks
+    about is compared, call by call, between the real decoder (harness/h_c07.c) and the models (`ssdriver c07`:
+    Model/AcmodFe + AcmodBuf for the counters, Model/DecRet for the values returned): every acmod counter, the frame
+    index of every search step, every front-end call (room:frames:left), the value each decoder_process_* /
+    decoder_end_utt call returned, the growth of d->n_frame; and on the implementation's own numbers: sum of returns +
+    growth of d->n_frame inside end_utt = output_frame = frames the front end delivered."""
+    from props import c07
+    import vlib
+    binp = vlib.build_harness("h_c07", extra_flags=c07.WRAP)
+    g = c07.GROUPS[0]
+    big = 99999999
+    hist = [("40,3,-1", ["p i 30000 0", f"p i {big} 0"]),
+            ("-", ["p i 20000 0", "q hyp", f"p i {big} 0"]),
+            ("-", ["p i 30000 1", f"p i {big} 1"]),
+            ("-", ["p f 7000 0", "p i 3000 1", "q seg", "p i 25000 0", f"p i {big} 0"]),
+            ("-", ["p i 1000 0", "p i 30000 0", f"p f {big} 0"])]
+    runs = [c07.mk_run(0, big, cmn, ops) for cmn, ops in hist]
+    rc, err, P, done = c07.run_harness(binp, g, runs, timeout=300)
+    name = "frame accounting beyond the CMN bound (5 utterances on one decoder, live-CMN window shifts): "
+    if done < len(runs) or "cmnhwm" not in P:
+        c.oblige(name + "harness ran the history to completion", False, {"exit_code": rc, "stderr_tail": err[-800:], "done": done})
+        return
+    cmn0 = int(c07.kv(runs[0]["out"][0])["cmnframes"])
+    mrc, merr, mouts, _ = c07.run_model(P, runs, cmn0)
+    if mrc != 0:
+        c.oblige(name + "model driver runs", False, merr[-800:])
+        return
+    problems, stat = [], {"calls": 0, "positive": 0, "steps": 0, "fe_calls": 0, "beyond": 0, "moved": 0, "frames": []}
+    for k, (r, mo) in enumerate(zip(runs, mouts)):
+        out = r["out"]
+        names = ["utt"] + r["ops"] + ["end", "res"]
+        prev_nfrm, tot = None, 0
+        for idx, (o, m) in enumerate(zip(out, mo)):
+            cs, ms = o.split(" | "), m.split(" | ")
+            cst, mst, d, mk = c07.kv(cs[-1]), c07.kv(ms[-1]), c07.kv(cs[0]), c07.kv(ms[0])
+            where = f"utterance {k} line {idx} ({names[idx]})"
+            if "FAULT" in mst or "FEBAD" in mk:
+                problems.append(f"{where}: model fault {mst.get('FAULT')}")
+                break
+            bad = [x for x in c07.ST_KEYS if cst.get(x) != mst.get(x)]
+            if bad:
+                problems.append(f"{where}: counter {bad[0]}: C={cst.get(bad[0])} model={mst.get(bad[0])}")
+                break
+            if idx < len(out) - 1:
+                csc = [(e[0], e[1]) for e in c07.parse_sc(d.get("sc", "-"))]
+                msc = [(e[0], e[1]) for e in c07.parse_sc(mk.get("sc", "-"))]
+                if csc != msc:
+                    problems.append(f"{where}: search steps differ: C={csc[:6]}.. model={msc[:6]}..")
+                    break
+                stat["steps"] += len(csc)
+                if "fe" in mk:
+                    stat["fe_calls"] += 0 if mk["fe"] == "-" else mk["fe"].count(",") + 1
+                    if mk["fe"] != d.get("fe", "-"):
+                        problems.append(f"{where}: front-end calls: C={d.get('fe', '-')[:120]} model={mk['fe'][:120]}")
+                        break
+            if "rv" in mk:
+                stat["calls"] += 1
+                stat["positive"] += 1 if mk["rv"] not in ("0", "-") else 0
+                if d.get("rv") != mk["rv"]:
+                    problems.append(f"{where}: value returned: C={d.get('rv')} model={mk['rv']}")
+                    break
+                if names[idx].startswith("p "):
+                    tot += int(d["rv"])
+            grow = None if prev_nfrm is None else int(cst["nfrm"]) - prev_nfrm
+            if grow is not None and grow != int(mk.get("cnt", "0")):
+                problems.append(f"{where}: d->n_frame grew by {grow}, model: {mk.get('cnt', '0')}")
+                break
+            prev_nfrm = int(cst["nfrm"])
+            if names[idx] == "end":
+                # on the implementation's own numbers
+                if tot + grow != int(cst["of"]) or int(cst["of"]) != int(mst["n"]) or int(cst["nfeat"]) != 0:
+                    problems.append(f"{where}: sum of returns {tot} + searched in end_utt {grow} != output_frame {cst['of']} "
+                                    f"(front-end frames in the model: {mst['n']}, frames left unsearched: {cst['nfeat']})")
+                    break
+                c0 = int(c07.kv(out[0])["cmnframes"])
+                stat["frames"].append((c0, int(cst["of"])))
+                stat["beyond"] += 1 if c0 + int(cst["of"]) > P["cmnhwm"] else 0
+                # the mean moved BEFORE decoder_end_utt (cmn_live_update at the end always moves it)
+                stat["moved"] += 1 if c07.kv(mo[idx - 1].split(" | ")[-1]).get("moved") == "1" else 0
+    c.oblige(name + "every counter, search step, front-end call, returned value and d->n_frame growth of the real decoder equals "
+             "the models', and sum of returns + frames searched in end_utt = output_frame = front-end frames",
+             not problems and stat["beyond"] >= 2 and stat["moved"] >= 2 and stat["positive"] >= 4,
+             {"problems": problems[:3], **stat})
+    c.cov.update({"frame_accounting_beyond_the_CMN_bound (cmn->nframe at start, frames) per utterance": stat["frames"],
+                  "utterances_beyond_the_bound": stat["beyond"], "utterances_in_which_the_live_CMN_window_shifted_before_end_utt (model)": stat["moved"],
+                  "calls_whose_return_value_was_compared_beyond_or_near_the_bound": stat["calls"],
+                  "search_steps_compared_there": stat["steps"], "front_end_calls_compared_there": stat["fe_calls"]})
+
+
 def check(c):
-    c01.run_check(c, "C03")
+    try:
+        c01.run_check(c, "C03")
+        if c.obligations and all(o[1] for o in c.obligations if o[0].startswith("lake build")):
+            long_history_tie(c)
+    finally:
+        fix_trusted(c)
 
 
 def replay(c, path):
